@@ -130,6 +130,13 @@ def run(ctx, prop=PROP, judge=None, what=WHAT):
                               expected="standard output is exactly b'a: abc-a'", observed=repr(o[:200]), engine="exec",
                               detail="the command of b and c cannot be started; the record of a must appear once, under its own label: got %r (stderr %r)" % (o[:120], e[-160:]))
         dist["exec_failure_runs"] = nx
+    # ---- part D: real children, records that name their producer ("<host> ...", so a record under another label, a torn or a lost
+    #      record shows): descriptor numbers given back and handed out again while a timed-out command is torn down; pdsh
+    #      started with descriptor 0 closed; the prompt loop (one forked run per command) with unterminated tails
+    if bad < 6:
+        nd, bad2 = real_records_part(ctx, real, quick)
+        dist["exec_record_runs"] = nd
+        bad += bad2
     have_input = any(v["kind"] != "no-failing-input-found" for v in ctx.violations)
     vlib.report_proof_break(ctx, have_input)
     cov = vlib.proof_coverage(ctx, {
@@ -139,6 +146,74 @@ def run(ctx, prop=PROP, judge=None, what=WHAT):
     return ctx.finish(cov, ["read(2), close(2) and fputs(3) intercepted at link time; one fputs = one atomic append (stdio lock, trusted)",
                             "poll/EINTR and the thread interleaving are covered by the sched engine, not here",
                             "NUL bytes, lines over 128 KiB and the return-code marker are outside the property's domain"])
+
+
+def judge_records(hosts_expect, out, errb):
+    """hosts_expect: host -> (list of stdout records, list of stderr records), records without the label; every record starts
+    with its producer's name.  Returns a problem string or None."""
+    def lines_of(b):
+        return [l for l in b.split(b"\n") if l]
+    own = [l for l in lines_of(errb) if not l.startswith((b"pdsh@", b"sending signal"))]
+    for what, got, idx in (("stdout", lines_of(out), 0), ("stderr", own, 1)):
+        want = {}
+        for h, recs in hosts_expect.items():
+            for rec in recs[idx]:
+                want[h.encode() + b": " + rec.encode()] = 0
+        for l in got:
+            lab, _, body = l.partition(b": ")
+            if not body.startswith(lab + b" ") and body != lab:
+                return "%s line %r: the record names another producer than its label (or is torn)" % (what, l[:80])
+            if l in want:
+                want[l] += 1
+            else:
+                return "%s line %r is not a record any host wrote" % (what, l[:80])
+        for l, n in want.items():
+            if n != 1:
+                return "%s record %r appears %d times" % (what, l[:80], n)
+    return None
+
+
+def real_records_part(ctx, real, quick):
+    n = bad = 0
+    sc = os.path.join(ctx.scratch, "records.sh")
+    with open(sc, "w") as fh:
+        fh.write("""#!/bin/sh
+h=$1
+case $h in
+ha) exec 0<&- 1>&-; exec sleep 30 ;;
+hx) sleep 2.5 ;;
+hb) sleep 1.8; echo "$h own"; echo "$h eown" >&2; sleep 1.2 ;;
+hc) i=0; while [ $i -lt 30 ]; do echo "$h line $i"; echo "$h eline $i" >&2; i=$((i+1)); sleep 0.05; done ;;
+t*) printf '%s line\\n%s tail' $h $h ;;
+esac
+exit 0
+""")
+    os.chmod(sc, 0o755)
+    scen = []
+    # (1) -u 3 -f 2: ha gives its stdout back at once and hangs until the command time-out; hb starts meanwhile (and gets the number
+    #     ha gave back), hc starts when ha is torn down and writes while hb is still there
+    exp = {"hb": (["hb own"], ["hb eown"]), "hc": (["hc line %d" % i for i in range(30)], ["hc eline %d" % i for i in range(30)])}
+    scen.append(("command time-out while descriptor numbers are reused", ["-R", "exec", "-u", "3", "-f", "2", "-w", "ha,hx,hb,hc", sc, "%h"], {}, exp, False))
+    # (2) descriptor 0 closed at start: the first host's connection is descriptor 0
+    exp2 = {h: (["%s line" % h, "%s tail" % h], []) for h in ("t1", "t2", "t3")}
+    scen.append(("started with descriptor 0 closed", ["-R", "exec", "-w", "t1,t2,t3", sc, "%h"], {"closed_stdin": True}, exp2, True))
+    # (3) the prompt loop: two commands from standard input, every host ends with an unterminated tail
+    exp3 = {h: (["%s line" % h, "%s tail" % h], []) for h in ("t1", "t2")}
+    scen.append(("prompt loop, records ending without a newline", ["-R", "exec", "-w", "t1,t2"], {"stdin": ("%s %%h\n" % sc).encode()}, exp3, True))
+    for name, args, kw, exp, tails in scen[:(3 if not quick else 3)]:
+        rc, o, e = real.run(args, timeout=40, **kw)
+        n += 1
+        if tails:
+            # the unterminated tail of a host is followed directly by the next label: put the line ends back before judging
+            for h in exp:
+                o = o.replace(("%s tail" % h).encode(), ("%s tail\n" % h).encode())
+            o = o.replace(b"pdsh> ", b"")
+        p = "pdsh did not finish" if rc == -999 else judge_records(exp, o, e)
+        if p:
+            bad += 1
+            ctx.violation("input", case={"transport": "exec", "scenario": name, "args": [str(a) for a in args[:-2]]}, expected="every record once, under the label of the host that wrote it",
+                          observed=repr(o[-300:]) + " / " + repr(e[-200:]), engine="exec", detail="%s: %s" % (name, p))
+    return n, bad
 
 
 UY = {"SCHED_UYIELD": "1"}     # library-lock releases are preemption points too (code right after cbuf_read interleaves)
